@@ -201,6 +201,21 @@ func (e *SpecEnv) lookupIdent(name string) SV {
 	if v, ok := e.vars[name]; ok {
 		return v
 	}
+	if gg, ok := e.g.DB.Ghosts["$g."+name]; ok {
+		gt, err := e.g.P.lookupType(gg.Typ, gg.Pkg)
+		if err != nil {
+			specFail("%v", err)
+		}
+		sh := e.shadow()
+		h := sh.cur("$g."+name, smtSortOf(gt))
+		if _, isMap := gt.Underlying().(*types.Map); isMap {
+			return SV{Val{K: KArr, T: h}, gt}
+		}
+		if isBool(gt) {
+			return SV{BoolV(h), gt}
+		}
+		return SV{IntV(h), gt}
+	}
 	// package-level constant or variable
 	if sp, ok := e.g.P.Pkgs[e.pkg]; ok {
 		if o := sp.Pkg.Scope().Lookup(name); o != nil {
@@ -325,7 +340,7 @@ func (e *SpecEnv) tr(x *Expr) SV {
 		case *types.Slice:
 			sh := e.shadow()
 			sz := e.g.P.sizeof(u.Elem())
-			a := fmt.Sprintf("(+ %s (* %s %d))", b.V.Fs[0].T, i.V.T, sz)
+			a := fmt.Sprintf("(+ %s %s)", b.V.Fs[0].T, mulC(i.V.T, sz))
 			p := sh.ptrTo(u.Elem(), a)
 			return SV{sh.derefLoad(p, u.Elem()), u.Elem()}
 		case *types.Array:
@@ -365,6 +380,8 @@ func (e *SpecEnv) tr(x *Expr) SV {
 			bs = append(bs, fmt.Sprintf("(%s %s)", n, smtSortOf(t)))
 			if isBool(t) {
 				extra[b.Name] = SV{BoolV(n), t}
+			} else if _, isMap := t.Underlying().(*types.Map); isMap {
+				extra[b.Name] = SV{Val{K: KArr, T: n}, t}
 			} else {
 				extra[b.Name] = SV{IntV(n), t}
 				if isInteger(t) && !(t == tInt) {
@@ -477,6 +494,10 @@ func (e *SpecEnv) call(x *Expr) SV {
 		key := map[string]string{"mem8": "uint8", "memptr": "ptr", "mem32": "uint32", "mem64": "uint64"}[x.Name]
 		h := sh.cur("mem."+key, "(Array Int Int)")
 		return SV{IntV(fmt.Sprintf("(select %s %s)", h, a.V.T)), tInt}
+	case "brk":
+		return SV{IntV(fmt.Sprintf("(select %s 0)", sh.cur("$brk", "(Array Int Int)"))), tInt}
+	case "memheap8":
+		return SV{Val{K: KArr, T: sh.cur("mem.uint8", "(Array Int Int)")}, types.NewMap(tInt, tInt)}
 	case "store":
 		// store(m, k, v) on ghost maps
 		m := e.tr(x.Args[0])
@@ -585,6 +606,27 @@ func (e *SpecEnv) loc(x *Expr) *Loc {
 		_ = s
 	case "index":
 		i := e.tr(x.Args[1])
+		// ghost global: g[i] or g[i][j]
+		if b := x.Args[0]; b.Op == "ident" {
+			if gg, ok := e.g.DB.Ghosts["$g."+b.Name]; ok {
+				if _, shadowed := e.vars[b.Name]; !shadowed {
+					gt, _ := e.g.P.lookupType(gg.Typ, gg.Pkg)
+					if mt, ok := gt.Underlying().(*types.Map); ok {
+						return &Loc{Heap: "$g." + b.Name, Idx: i.V.T, Typ: mt.Elem()}
+					}
+				}
+			}
+		} else if b.Op == "index" && b.Args[0].Op == "ident" {
+			if gg, ok := e.g.DB.Ghosts["$g."+b.Args[0].Name]; ok {
+				gt, _ := e.g.P.lookupType(gg.Typ, gg.Pkg)
+				if mt, ok := gt.Underlying().(*types.Map); ok {
+					if mt2, ok := mt.Elem().Underlying().(*types.Map); ok {
+						j := e.tr(b.Args[1])
+						return &Loc{Heap: "$g." + b.Args[0].Name, Idx: j.V.T, Sub: i.V.T, Typ: mt2.Elem()}
+					}
+				}
+			}
+		}
 		// ghost map element or array field element or slice element
 		if x.Args[0].Op == "sel" {
 			if bl := e.tryLoc(x.Args[0]); bl != nil {
@@ -598,7 +640,7 @@ func (e *SpecEnv) loc(x *Expr) *Loc {
 		}
 		b := e.tr(x.Args[0])
 		if sl, ok := b.T.Underlying().(*types.Slice); ok {
-			a := fmt.Sprintf("(+ %s (* %s %d))", b.V.Fs[0].T, i.V.T, e.g.P.sizeof(sl.Elem()))
+			a := fmt.Sprintf("(+ %s %s)", b.V.Fs[0].T, mulC(i.V.T, e.g.P.sizeof(sl.Elem())))
 			p := sh.ptrTo(sl.Elem(), a)
 			if p.K == KLoc {
 				return p.Loc
